@@ -1,0 +1,289 @@
+//! Verification hooks (only compiled with the `verif` cargo feature).
+//!
+//! Everything in here is inert unless a simulator explicitly arms it:
+//! probes only count, gates are pass-through unless armed by name, buggify
+//! points return `false` unless enabled by name.
+
+use std::{
+    collections::{BTreeMap, HashMap},
+    sync::{
+        Arc, Mutex, OnceLock,
+        atomic::{AtomicI64, AtomicU64, Ordering},
+    },
+};
+
+static PENDING: AtomicI64 = AtomicI64::new(0);
+static COMMITS: AtomicU64 = AtomicU64::new(0);
+
+fn probes() -> &'static Mutex<BTreeMap<&'static str, u64>> {
+    static P: OnceLock<Mutex<BTreeMap<&'static str, u64>>> = OnceLock::new();
+    P.get_or_init(Default::default)
+}
+
+/// Count that a named code location was reached.
+pub fn hit(name: &'static str) {
+    *probes().lock().unwrap().entry(name).or_default() += 1;
+}
+
+/// Snapshot and reset all probe counters.
+pub fn take_probes() -> BTreeMap<&'static str, u64> {
+    std::mem::take(&mut *probes().lock().unwrap())
+}
+
+/// A detached task that will deliver something to a simulator-owned queue
+/// was (or is about to be) spawned.
+pub fn pending_inc() {
+    PENDING.fetch_add(1, Ordering::SeqCst);
+}
+
+/// Such a task finished.
+pub fn pending_dec() {
+    PENDING.fetch_sub(1, Ordering::SeqCst);
+}
+
+/// Number of detached delivery tasks still in flight.
+pub fn pending() -> i64 {
+    PENDING.load(Ordering::SeqCst)
+}
+
+/// Decrements the pending counter when dropped.
+pub struct PendingGuard(());
+
+impl PendingGuard {
+    /// Takes over a count previously added with [`pending_inc`].
+    pub fn adopt() -> Self {
+        PendingGuard(())
+    }
+
+    /// Increments now, decrements on drop.
+    pub fn new() -> Self {
+        pending_inc();
+        PendingGuard(())
+    }
+}
+
+impl Default for PendingGuard {
+    fn default() -> Self {
+        Self::new()
+    }
+}
+
+impl Drop for PendingGuard {
+    fn drop(&mut self) {
+        pending_dec();
+    }
+}
+
+pub fn commit_inc() {
+    COMMITS.fetch_add(1, Ordering::SeqCst);
+}
+
+pub fn commits() -> u64 {
+    COMMITS.load(Ordering::SeqCst)
+}
+
+// ---------------------------------------------------------------------------
+// buggify
+
+fn buggify_sites() -> &'static Mutex<HashMap<&'static str, (u64, u64)>> {
+    // name -> (remaining "true" answers to skip before firing, remaining fires)
+    static B: OnceLock<Mutex<HashMap<&'static str, (u64, u64)>>> = OnceLock::new();
+    B.get_or_init(Default::default)
+}
+
+/// Arm a buggify site: after `skip` negative answers it answers `true`
+/// `fires` times, then goes back to `false`.
+pub fn buggify_arm(name: &'static str, skip: u64, fires: u64) {
+    buggify_sites().lock().unwrap().insert(name, (skip, fires));
+}
+
+pub fn buggify_clear() {
+    buggify_sites().lock().unwrap().clear();
+}
+
+/// `false` unless the simulator armed this site.
+pub fn buggify(name: &'static str) -> bool {
+    let mut sites = buggify_sites().lock().unwrap();
+    match sites.get_mut(name) {
+        None => false,
+        Some((skip, fires)) => {
+            if *skip > 0 {
+                *skip -= 1;
+                false
+            } else if *fires > 0 {
+                *fires -= 1;
+                hit(name);
+                true
+            } else {
+                false
+            }
+        }
+    }
+}
+
+// ---------------------------------------------------------------------------
+// gates
+
+#[derive(Default)]
+struct GateState {
+    armed: bool,
+    parked: u64,
+    released: u64,
+}
+
+struct Gate {
+    state: Mutex<GateState>,
+    cv: std::sync::Condvar,
+    notify: tokio::sync::Notify,
+}
+
+fn gates() -> &'static Mutex<HashMap<String, Arc<Gate>>> {
+    static G: OnceLock<Mutex<HashMap<String, Arc<Gate>>>> = OnceLock::new();
+    G.get_or_init(Default::default)
+}
+
+fn gate_get(name: &str) -> Option<Arc<Gate>> {
+    gates().lock().unwrap().get(name).cloned()
+}
+
+/// Arm a gate: every task reaching `gate(name)` parks until released.
+pub fn gate_arm(name: &str) {
+    let g = {
+        let mut gs = gates().lock().unwrap();
+        gs.entry(name.to_string())
+            .or_insert_with(|| {
+                Arc::new(Gate {
+                    state: Mutex::new(GateState::default()),
+                    cv: std::sync::Condvar::new(),
+                    notify: tokio::sync::Notify::new(),
+                })
+            })
+            .clone()
+    };
+    g.state.lock().unwrap().armed = true;
+}
+
+/// Number of tasks currently parked at a gate.
+pub fn gate_parked(name: &str) -> u64 {
+    gate_get(name)
+        .map(|g| {
+            let s = g.state.lock().unwrap();
+            s.parked - s.released
+        })
+        .unwrap_or(0)
+}
+
+/// Disarm and release everything parked at the gate.
+pub fn gate_release(name: &str) {
+    if let Some(g) = gate_get(name) {
+        {
+            let mut s = g.state.lock().unwrap();
+            s.armed = false;
+            s.released = s.parked;
+        }
+        g.cv.notify_all();
+        g.notify.notify_waiters();
+    }
+}
+
+pub fn gates_clear() {
+    let names: Vec<String> = gates().lock().unwrap().keys().cloned().collect();
+    for n in names {
+        gate_release(&n);
+    }
+}
+
+/// Pass-through unless armed.
+pub async fn gate(name: &str) {
+    let Some(g) = gate_get(name) else { return };
+    let ticket = {
+        let mut s = g.state.lock().unwrap();
+        if !s.armed {
+            return;
+        }
+        s.parked += 1;
+        s.parked
+    };
+    loop {
+        let notified = g.notify.notified();
+        {
+            let s = g.state.lock().unwrap();
+            if s.released >= ticket {
+                return;
+            }
+        }
+        notified.await;
+    }
+}
+
+/// Blocking flavour for code running inside `block_in_place`.
+pub fn gate_blocking(name: &str) {
+    let Some(g) = gate_get(name) else { return };
+    let mut s = g.state.lock().unwrap();
+    if !s.armed {
+        return;
+    }
+    s.parked += 1;
+    let ticket = s.parked;
+    while s.released < ticket {
+        s = g.cv.wait(s).unwrap();
+    }
+}
+
+// ---------------------------------------------------------------------------
+// lock / resource acquisition events
+
+#[derive(Debug, Clone, PartialEq, Eq)]
+pub struct LockEvent {
+    /// "acquiring" | "locked" | "released"
+    pub phase: &'static str,
+    /// "bookie" / "booked" / "pool" / "permit" ... free-form resource class
+    pub resource: String,
+    /// label given at the call site
+    pub label: &'static str,
+    /// "read" | "write"
+    pub kind: &'static str,
+    /// registry id (unique per acquisition)
+    pub id: usize,
+    /// tokio task id (0 when not inside a task)
+    pub task: u64,
+}
+
+fn lock_log() -> &'static Mutex<Option<Vec<LockEvent>>> {
+    static L: OnceLock<Mutex<Option<Vec<LockEvent>>>> = OnceLock::new();
+    L.get_or_init(Default::default)
+}
+
+pub fn lock_trace_start() {
+    *lock_log().lock().unwrap() = Some(Vec::new());
+}
+
+pub fn lock_trace_take() -> Vec<LockEvent> {
+    lock_log().lock().unwrap().take().unwrap_or_default()
+}
+
+pub fn current_task() -> u64 {
+    tokio::task::try_id()
+        .map(|id| id.to_string().parse::<u64>().unwrap_or(0))
+        .unwrap_or(0)
+}
+
+pub fn lock_event(
+    phase: &'static str,
+    resource: impl FnOnce() -> String,
+    label: &'static str,
+    kind: &'static str,
+    id: usize,
+) {
+    let mut log = lock_log().lock().unwrap();
+    if let Some(v) = log.as_mut() {
+        v.push(LockEvent {
+            phase,
+            resource: resource(),
+            label,
+            kind,
+            id,
+            task: current_task(),
+        });
+    }
+}
